@@ -10,6 +10,15 @@ TRUSTED_BASE = [
 ]
 
 REG = {
+    "C03": {
+        "assumptions": [
+            "PARTIAL: the theorems cover (1) the resource brackets of a connection (registry entry, connected counter, claimed transfer entry, in-progress counters are released whatever the peer sends and however the handler ends - return, error, recovered panic) and (2) structural obligations over facts regenerated from the sources (recovery installed first, every acquisition directly followed by its deferred release, shared maps only touched under a mutex, the set of go statements)",
+            "Go semantics assumed: deferred calls run in reverse order on return and on panic; recover() in the first deferred call stops a panic of the handler's own goroutine; a concurrent map write and a panic in a goroutine without recovery abort the process",
+            "NOT modelled (searched by the hostile runs only): scheduler fairness and timeliness of the sentinel's replies, memory exhaustion, blocked writers, kernel limits, the 1-3 s sleeps",
+            "hostile logged-in peers are ordinary users (what an administrator account may do to others is C05/C17's subject)",
+        ],
+        "trusted_base": ["translator: Gen/Structure.v (statement order of the two connection handlers, map index expressions with lock depth, go statements)", "the hostile generators and the sentinel in harness/c03.go", "modelled, not verified: Go's defer/recover/runtime fault semantics"],
+    },
     "C04": {
         "assumptions": [
             "the connection is the byte string the peer sends before it closes; chunking is irrelevant (C02)",
